@@ -1485,9 +1485,38 @@ package graphql
 //@   nosafety
 //@   at call astFromValue#1: assert arg0 == inputVal.DefaultValue && arg1 == inputVal.Type
 //@   at call astFromValue#2: assert arg0 == inputVal.DefaultValue && arg1 == inputVal.Type
+// (verified, was trusted) the literal reported for a default value (C10), one level each: a non-null wrapper is
+// transparent; null gives no literal; a non-list value for a list type is printed as the item type (list of one);
+// every item of a list / every field of an input object (in name order) is printed against its own type and left
+// out when it has no literal; an enum default (configured as the internal value) is printed as the NAME its
+// Serialize yields; booleans and strings keep their value.
 //@ func astFromValue
-//@   trusted
-//@   assigns nothing
+//@   props C10 C12
+//@   nosafety
+// (the AST constructors stamp the Kind of the fresh nodes they are given)
+//@   assigns class:ast.
+//@   at call astFromValue#1: assert arg0 == value && arg1 == as(old(ttype), "*graphql.NonNull").OfType
+//@   ensures typeis(ttype, "*graphql.NonNull") ==> calls("astFromValue") == 1 && result == lastresult("astFromValue")
+//@   ensures !typeis(ttype, "*graphql.NonNull") && isNullish_0(value) ==> isnil(result)
+//@   at call astFromValue#2: assert arg1 == as(old(ttype), "*graphql.List").OfType
+//@   loop 1 invariant fresh(values)
+//@   loop 1 ensures calls("astFromValue") == atloop(1, calls("astFromValue")) + 1
+//@   loop 1 ensures !isnil(lastresult("astFromValue")) ==> len(values) == atloop(1, len(values)) + 1 && values[len(values)-1] == lastresult("astFromValue")
+//@   loop 1 ensures isnil(lastresult("astFromValue")) ==> len(values) == atloop(1, len(values))
+//@   at call astFromValue#3: assert arg0 == value && arg1 == as(old(ttype), "*graphql.List").OfType
+//@   at call Serialize: assert arg1 == value
+//@   ensures calls("Serialize") == 1 && !isNullish_0(value) && typeis(ttype, "*graphql.Enum") && typeis(lastresult("Serialize"), "string") ==> typeis(result, "*ast.EnumValue") && as(result, "*ast.EnumValue").Value == strval(lastresult("Serialize"))
+//@   ensures calls("Serialize") == 1 && !isNullish_0(value) && typeis(ttype, "*graphql.Enum") && !typeis(lastresult("Serialize"), "string") ==> isnil(result)
+//@   ensures !isNullish_0(value) && typeis(ttype, "*graphql.Enum") ==> calls("Serialize") == 1
+//@   loop 2 over fieldMap
+//@   loop 2 invariant fresh(fieldNames)
+//@   loop 3 over fieldNames
+//@   loop 3 invariant fresh(fields) && sortedflag(fieldNames)
+//@   at call astFromValue#4: assert arg1 == fieldMap[fieldName].Type
+//@   loop 3 ensures calls("astFromValue") == atloop(3, calls("astFromValue")) + 1 && !isnil(lastresult("astFromValue")) ==> len(fields) == atloop(3, len(fields)) + 1 && fields[len(fields)-1].Value == lastresult("astFromValue") && fields[len(fields)-1].Name.Value == fieldName
+//@   loop 3 ensures calls("astFromValue") == atloop(3, calls("astFromValue")) ==> len(fields) == atloop(3, len(fields))
+//@   ensures !isNullish_0(value) && typeis(value, "bool") && (typeis(ttype, "*graphql.Scalar")) ==> typeis(result, "*ast.BooleanValue") && as(result, "*ast.BooleanValue").Value == boolval(value)
+//@   ensures !isNullish_0(value) && typeis(value, "string") && typeis(ttype, "*graphql.Scalar") ==> typeis(result, "*ast.StringValue")
 
 // ---- did-you-mean suggestions (C12): a defined order ----
 // The sort permutes options and distances together, ties are broken by name, and the candidate
